@@ -569,6 +569,47 @@ pub fn gen_grid(rng: &mut Rng, s: &GridSpec) -> Graph {
     Graph { coords, und }
 }
 
+/// connected random graph on `n` nodes with edge probability `p`/1000 (a Hamiltonian path is always present),
+/// random coordinates with pairwise distinct keys on all four axes.  Not road-like: cuts can exceed the
+/// node count of a cell.
+pub fn gen_dense(rng: &mut Rng, n: usize, p: u64) -> Graph {
+    let mut used: [HashSet<i64>; 4] = Default::default();
+    let mut coords = Vec::with_capacity(n);
+    let span = (n as u64 * 50).max(200);
+    for _ in 0..n {
+        loop {
+            let lat = rng.below(span) as i64 - (span / 2) as i64;
+            let lon = rng.below(span) as i64 - (span / 3) as i64;
+            let keys = [lat, lon, lat + lon, lat - lon];
+            if (0..4).all(|a| !used[a].contains(&keys[a])) {
+                for a in 0..4 {
+                    used[a].insert(keys[a]);
+                }
+                coords.push((lat as i32, lon as i32));
+                break;
+            }
+        }
+    }
+    let mut order: Vec<usize> = (0..n).collect();
+    rng.shuffle(&mut order);
+    let mut und = Vec::new();
+    let mut has = HashSet::new();
+    for w in order.windows(2) {
+        let (a, b) = (w[0].min(w[1]), w[0].max(w[1]));
+        if has.insert((a, b)) {
+            und.push((a, b));
+        }
+    }
+    for a in 0..n {
+        for b in a + 1..n {
+            if rng.chance(p, 1000) && has.insert((a, b)) {
+                und.push((a, b));
+            }
+        }
+    }
+    Graph { coords, und }
+}
+
 pub fn rand_weight(rng: &mut Rng) -> u64 {
     match rng.below(10) {
         0 => *rng.pick(&[0u64, 250, 251, 65535, 65536, 4294967295, 4294967296, u64::MAX]),
